@@ -855,8 +855,24 @@ def _accept(ctx, prim):
                 return 'value'
             return ('opaque', fmt_terms(ts)[:50])
 
+        def range_parts(n):
+            """(start terms, end terms, item terms) of `(a..=b).contains(&x)`"""
+            if n[0] != 'call' or n[1] != 'std::ops::RangeInclusive::<Idx>::contains' or len(n[2]) != 2:
+                return None
+            rg = strip_clone(n[2][0])
+            if len(rg) != 1:
+                return None
+            g = next(iter(rg))
+            if g[0] == 'call' and g[1] == 'std::ops::RangeInclusive::<Idx>::new' and len(g[2]) == 2:
+                return g[2][0], g[2][1], n[2][1]
+            if g[0] == 'agg' and g[1] == 'std::ops::RangeInclusive':
+                dd = dict(g[3])
+                if 'start' in dd and 'end' in dd:
+                    return dd['start'], dd['end'], n[2][1]
+            return None
+
         def is_atom(n):
-            return n[0] == 'binop' and n[1] in ('Lt', 'Le', 'Gt', 'Ge', 'Eq', 'Ne')
+            return (n[0] == 'binop' and n[1] in ('Lt', 'Le', 'Gt', 'Ge', 'Eq', 'Ne')) or range_parts(n) is not None
         try:
             leaves = explore(fs, 0, is_atom)
         except Overflow:
@@ -898,6 +914,18 @@ def _accept(ctx, prim):
             for (val, out) in leaves:
                 consistent = True
                 for atom, tv in val.items():
+                    rp = range_parts(atom)
+                    if rp is not None:
+                        # start <= x && x <= end
+                        s0, s1, sx = sym(rp[0]), sym(rp[1]), sym(rp[2])
+                        if s0 is None or s1 is None or sx is None:
+                            continue
+                        r1, r2 = rel(s0, sx, case), rel(sx, s1, case)
+                        if r1 <= {'lt', 'eq'} and r2 <= {'lt', 'eq'} and tv is False:
+                            consistent = False
+                        if (not (r1 & {'lt', 'eq'}) or not (r2 & {'lt', 'eq'})) and tv is True:
+                            consistent = False
+                        continue
                     a, b_ = sym(atom[2]), sym(atom[3])
                     if a is None or b_ is None:
                         continue
